@@ -163,7 +163,9 @@ CHECKS["C19"] = {
           "with the model's prediction for that row.",
   "design_ref": "DESIGN.md section 4, C19",
   "technique": "Lean 4 proof (finite table, decide +kernel) over generated tables + exhaustive CLI grid oracle + model/CLI correspondence",
-  "note": TB + "extraction is syntactic (mini Rust/TS parsers in translate/_rs.py, bindings.py, output_shapes.py): guard texts are mapped "
+  "note": TB + "the ts-rs declarations are regenerated from the current Rust source on every run (TS_RS_EXPORT_DIR into .cache, "
+          "`cargo test -p renamify-core --lib export_bindings_`; renamify-core/bindings/ is never read); "
+          "extraction is syntactic (mini Rust/TS parsers in translate/_rs.py, bindings.py, output_shapes.py): guard texts are mapped "
           "to model atoms by a fixed dictionary and an unknown construct makes the translator fail; an operation returning Ok is "
           "assumed to have had its effect (checked per grid cell from the tree/history); stdout is a pipe and stdin /dev/null in every "
           "row (the prompt sites inside rename_operation are pinned by a theorem, not exercised); serde_json string escaping trusted.",
